@@ -1,0 +1,16 @@
+//go:build verif
+
+package field
+
+// Views of the limb representation for the verification harness (build tag verif only; nothing
+// here is reachable in a normal build).
+
+// VerifLimbs returns the five radix-2^51 limbs of v as they are, without reducing.
+func VerifLimbs(v *Element) [5]uint64 { return [5]uint64{v.l0, v.l1, v.l2, v.l3, v.l4} }
+
+// VerifFromLimbs returns the element with exactly these limbs.
+func VerifFromLimbs(l [5]uint64) *Element { return &Element{l[0], l[1], l[2], l[3], l[4]} }
+
+func VerifCarryPropagate(v *Element) *Element { return v.carryPropagate() }
+
+func VerifReduce(v *Element) *Element { return v.reduce() }
